@@ -6,7 +6,7 @@ RULE = ("hist: hand-assembled multi-revision PDFs (classic sections / xref strea
         "entries, /Prev chains) opened by the real PdfReader under the strict/default/new/tolerant/skip_errors presets; every object "
         "number of the history fetched with get_object. Exhaustive: all histories over 2 objects with K<=2 (quick) / K<=3 (thorough) "
         "and over 3 objects K<=2 (thorough), each object absent/Direct/InStm/Free per revision, both section forms; sampled larger ones; "
-        "random histories of 3..7 revisions; recovery class: newest cross-reference data damaged (startxref past EOF / keyword "
+        "random histories of 3..7 revisions; hybrid-reference files (hybrid_k2: every base over 2 objects x every hybrid update with each object absent/Direct/Free in the classic section or InStm/hidden-Direct in the /XRefStm stream; hybrid base; hybrid on hybrid; ordinary update on hybrid; random histories with hybrid updates); recovery class: newest cross-reference data damaged (startxref past EOF / keyword "
         "overwritten), direct redefinitions only. non-trivial = some queried object is defined by at least two revisions")
 
 
@@ -34,6 +34,6 @@ def run(r):
     r.assumptions = ["HashMap is a finite map (iteration order unobservable: the merged loops only insert absent keys)",
                      "integer truncations (as u32 / as u16) of xref-stream fields are not modelled; generated fields fit",
                      "the /Prev chain walk and the startxref search are modelled over an abstract file (offset -> section record, tail lines; ChainModel.v) that is hand-read from the code; the correspondence ties them only end to end (every generated file is a /Prev chain); tokenisation is observed only",
-                     "the code never reads /XRefStm (hybrid-reference files, ISO 32000-1 7.5.8.4): c04_file_newest_wins is stated for chains without /XRefStm, c04_hybrid_refuted is the witness; no generated file is hybrid",
-                     "model is of the tree with fix_c04_stale_compressed.patch and fix_c04_w0_default.patch applied"]
+                     "hybrid-reference files (ISO 32000-1 7.5.8.4): the loop parses the /XRefStm stream of a classic section right after the section and before /Prev (fix_c04_hybrid_xrefstm.patch); the pinned loop (walk_pinned) never read the key: c04_hybrid_refuted; hybrid files are generated (classes hybrid_*)",
+                     "model is of the tree with fix_c04_stale_compressed.patch, fix_c04_w0_default.patch and fix_c04_hybrid_xrefstm.patch applied"]
     return standard(r, "c04", ["theories/C04/Proofs.vo", "theories/C04/ChainProofs.vo"], ["theories/C04/Model.vo"], ["hist"], pre=corpus)
